@@ -71,4 +71,6 @@ func (p *Publisher) Stop() {
 	<-p.done
 }
 
-func (p *Publisher) String() string { return fmt.Sprintf("publisher(%s sent=%d)", p.Path, atomic.LoadInt64(&p.Sent)) }
+func (p *Publisher) String() string {
+	return fmt.Sprintf("publisher(%s sent=%d)", p.Path, atomic.LoadInt64(&p.Sent))
+}
